@@ -443,11 +443,19 @@ func (s Emitter) formatLiteral(output io.Writer, literal *cypher.Literal) error 
 		}
 
 	case float32:
+		if math.IsInf(float64(typedLiteral), 0) || math.IsNaN(float64(typedLiteral)) {
+			return fmt.Errorf("unable to format the float literal %v: Cypher has no literal for it", typedLiteral)
+		}
+
 		if _, err := io.WriteString(output, formatFloatLiteral(float64(typedLiteral))); err != nil {
 			return err
 		}
 
 	case float64:
+		if math.IsInf(typedLiteral, 0) || math.IsNaN(typedLiteral) {
+			return fmt.Errorf("unable to format the float literal %v: Cypher has no literal for it", typedLiteral)
+		}
+
 		if _, err := io.WriteString(output, formatFloatLiteral(typedLiteral)); err != nil {
 			return err
 		}
@@ -574,6 +582,10 @@ func (s Emitter) WriteExpression(output io.Writer, expression cypher.Expression)
 		}
 
 	case *cypher.Disjunction:
+		if len(typedExpression.Expressions) == 0 {
+			return fmt.Errorf("unable to format an empty %T: there is no Cypher text for it", typedExpression)
+		}
+
 		for idx, joinedExpression := range typedExpression.Expressions {
 			if idx > 0 {
 				if _, err := io.WriteString(output, " or "); err != nil {
@@ -587,6 +599,10 @@ func (s Emitter) WriteExpression(output io.Writer, expression cypher.Expression)
 		}
 
 	case *cypher.ExclusiveDisjunction:
+		if len(typedExpression.Expressions) == 0 {
+			return fmt.Errorf("unable to format an empty %T: there is no Cypher text for it", typedExpression)
+		}
+
 		for idx, joinedExpression := range typedExpression.Expressions {
 			if idx > 0 {
 				if _, err := io.WriteString(output, " xor "); err != nil {
@@ -600,6 +616,10 @@ func (s Emitter) WriteExpression(output io.Writer, expression cypher.Expression)
 		}
 
 	case *cypher.Conjunction:
+		if len(typedExpression.Expressions) == 0 {
+			return fmt.Errorf("unable to format an empty %T: there is no Cypher text for it", typedExpression)
+		}
+
 		for idx, joinedExpression := range typedExpression.Expressions {
 			if idx > 0 {
 				if _, err := io.WriteString(output, " and "); err != nil {
@@ -734,6 +754,10 @@ func (s Emitter) WriteExpression(output io.Writer, expression cypher.Expression)
 		}
 
 	case *cypher.KindMatcher:
+		if len(typedExpression.Kinds) == 0 {
+			return fmt.Errorf("unable to format a kind matcher without kinds")
+		}
+
 		if typedExpression.IsExclusive && len(typedExpression.Kinds) > 1 {
 			// all-of: `ref:A:B`, the form the parser reads back as an exclusive matcher
 			if err := s.WriteExpression(output, typedExpression.Reference); err != nil {
